@@ -120,6 +120,11 @@ func parseNum(x string) (float64, error) {
 	if subs != nil {
 		v, err := strconv.ParseFloat(subs[1], 64)
 		if err == nil {
+			// A sign directly in front of a number that starts the
+			// string belongs to the number ("-5K" is -5000).
+			if i := strings.Index(x, subs[1]); i == 1 && x[0] == '-' {
+				v = -v
+			}
 			exp := 0
 			if len(subs[2]) > 0 {
 				pre := subs[2][0]
